@@ -73,7 +73,13 @@ impl Debt {
     #[inline]
     pub(crate) fn pay<T: RefCnt>(&self, ptr: *const T::Base) -> bool {
         self.0
-            // If we don't change anything because there's something else, Relaxed is fine.
+            // If we don't change anything because there's something else, we don't publish
+            // anything. But we still need Acquire on that failure: a caller that finds its debt
+            // already paid takes over the reference the payer put there, and the payer may have
+            // paid it for a *different* value living at the same address (the original one got
+            // freed before our debt was in place and the address got reused). The caller is then
+            // going to touch (decrement, or even use) a value it has never synchronized with in
+            // any other way, so the payer's initialization of it must happen-before that.
             //
             // The Release works as kind of Mutex. We make sure nothing from the debt-protected
             // sections leaks below this point.
@@ -82,7 +88,7 @@ impl Debt {
             // necessarily observe that increment, but whoever destroys the pointer *must* see the
             // up to date value, with all increments already counted in (the Arc takes care of that
             // part).
-            .compare_exchange(ptr as usize, Self::NONE, Release, Relaxed)
+            .compare_exchange(ptr as usize, Self::NONE, Release, Acquire)
             .is_ok()
     }
 
